@@ -3,6 +3,7 @@ from __future__ import annotations
 
 from fractions import Fraction as Fr
 
+import numpy as _np
 import z3
 
 from symnp import core, harness, load
@@ -20,7 +21,7 @@ META = {
               "ToOEvent.get_sun / get_moon / moon_phase_angle -> symbolic arrays (one symbol per time)"],
     "assumptions": ["REAL mode with algebraised trigonometry (angles as unit-circle points, monotonicity of cos/sin on principal branches)", "0 < angle_from_limb < horizon nadir angle; detector altitude > 0"],
 }
-LEDGER = {"quick": 225, "thorough": 500}
+LEDGER = {"quick": 232, "thorough": 400}
 
 
 class TimeStub:
@@ -149,19 +150,46 @@ def cut_run(N):
         sun, moon, ph = (symarr([f"{n}{i}" for i in range(N)]) for n in ("sun", "moon", "phase"))
         calls = []
 
+        class Times:
+            """array of N event times (astropy Time stand-in): indexing, size, isscalar, len, iteration"""
+
+            def __init__(self, ids, scalar=False):
+                self.ids, self.isscalar = list(ids), scalar
+
+            size = property(lambda self: len(self.ids))
+            shape = property(lambda self: () if self.isscalar else (len(self.ids),))
+
+            def __len__(self):
+                if self.isscalar:
+                    raise TypeError("scalar Time has no len()")
+                return len(self.ids)
+
+            def __getitem__(self, k):
+                if isinstance(k, (int, _np.integer)):
+                    return Times([self.ids[k]], True)
+                return Times(list(_np.array(self.ids)[k]))
+
+            def __iter__(self):
+                return iter(Times([i], True) for i in self.ids)
+
+        def at(arr, time):
+            # an ephemeris value belongs to the time it is evaluated at
+            calls.append(list(time.ids))
+            return arr.a[time.ids[0]] if time.isscalar else SymArray(arr.a[list(time.ids)].copy(), "float")
+
         def body(arr):
-            return lambda time: (calls.append(time), type("B", (), {"alt": type("A", (), {"rad": arr})()})())[1]
+            return lambda time: type("B", (), {"alt": type("A", (), {"rad": at(arr, time)})()})()
 
         t.get_sun, t.get_moon = body(sun), body(moon)
-        t.moon_phase_angle = lambda time: (calls.append(time), type("Q", (), {"value": ph})())[1]
+        t.moon_phase_angle = lambda time: type("Q", (), {"value": at(ph, time)})()
+        TIMES = Times(range(N))
 
         def with_cuts(sc, mc, pc):
             t.sun_alt_cut, t.moon_alt_cut, t.MoonMinPhaseAngleCut = SV(t=sc), SV(t=mc), SV(t=pc)
-            return t.sun_moon_cut("TIMES")
+            return t.sun_moon_cut(TIMES)
 
         dark = with_cuts(s, m, p)
-        claims = {"every ephemeris is evaluated at the times given": z3.BoolVal(all(c == "TIMES" for c in calls) and len(calls) == 3),
-                  "one flag per time": z3.BoolVal(len(dark) == N)}
+        claims = {"one flag per time": z3.BoolVal(len(SymArray(dark).a.reshape(-1)) == N)}
         for i in range(N):
             ref = z3.And(z3.Real(f"sun{i}") < s, z3.Or(z3.Real(f"moon{i}") < m, z3.Real(f"phase{i}") > p))
             claims[f"[{i}] dark == sun below its limit and (moon below its limit or phase angle above the minimum)"] = core._b(dark[i]).term() == ref
@@ -221,14 +249,23 @@ def replay(v):
     if job.startswith("ToOEvent.sun_moon_cut"):
         from nuspacesim.simulation.geometry.too import ToOEvent
 
+        import astropy.units as au
+        from astropy.time import Time
+
         t = object.__new__(ToOEvent)
-        N = 2
+        N = int(job.split("N=")[1].rstrip(")"))
         A = lambda n: np.array([m.get(f"{n}{i}", 0.0) for i in range(N)], dtype=float)  # noqa
-        t.get_sun = lambda time: type("B", (), {"alt": type("A", (), {"rad": A("sun")})()})()
-        t.get_moon = lambda time: type("B", (), {"alt": type("A", (), {"rad": A("moon")})()})()
-        t.moon_phase_angle = lambda time: type("Q", (), {"value": A("phase")})()
+        times = Time("2022-06-02T01:00:00", format="isot", scale="utc") + np.arange(N) * au.hour
+
+        def at(n, time):  # the ephemeris value of the time(s) asked for (real astropy Time objects)
+            k = np.rint((np.atleast_1d(time.jd) - times[0].jd) * 24).astype(int)
+            return A(n)[k] if not time.isscalar else A(n)[k][0]
+
+        t.get_sun = lambda time: type("B", (), {"alt": type("A", (), {"rad": at("sun", time)})()})()
+        t.get_moon = lambda time: type("B", (), {"alt": type("A", (), {"rad": at("moon", time)})()})()
+        t.moon_phase_angle = lambda time: type("Q", (), {"value": at("phase", time)})()
         t.sun_alt_cut, t.moon_alt_cut, t.MoonMinPhaseAngleCut = m.get("sun_alt_cut", 0.0), m.get("moon_alt_cut", 0.0), m.get("moon_min_phase_angle_cut", 0.0)
-        got = t.sun_moon_cut(None)
+        got = np.broadcast_to(t.sun_moon_cut(times), (N,))
         ref = (A("sun") < t.sun_alt_cut) & ((A("moon") < t.moon_alt_cut) | (A("phase") > t.MoonMinPhaseAngleCut))
         if not np.array_equal(np.asarray(got, dtype=bool), ref):
             return {"reproduced": True, "key": "sun_moon_cut differs from the documented dark-sky condition", "detail": f"got {np.asarray(got).tolist()}, reference {ref.tolist()} at {m}"}
